@@ -15,6 +15,7 @@ fixed key, keyed MD5 over everything before it) plus the header description at t
 """
 from __future__ import annotations
 
+import ast
 import hashlib
 from fractions import Fraction
 
@@ -225,6 +226,84 @@ def run(ctx):
                     mk = True
         ctx.ob("C02.b", DEC, mk, "decoder requires the start marker the encoder emits (5a5a)", func=DEC, file=file, node=node2,
                fail="decoder's start-marker test does not match the encoder's marker")
+    # every explicit rejection of decode: decided against the packets a conforming peer produces (total length 72..328,
+    # length field = actual length, marker/type constants as emitted by the encoder)
+    from ..intervals import iv_of as _iv
+    LEN = ("call", ("ext", "int.from_bytes"), (("slice", ("call", ("ext", "memoryview"), (("param", dp),), ()), ("const", 4), ("const", 6), None), ("const", "little")), ())
+
+    def valid_leaf(t_):
+        ts = strip(t_)
+        if call_is(ts, "int.from_bytes"):
+            f_ = strip(ts[2][0])
+            if f_[0] == "slice" and strip(f_[1]) == ("param", dp) and f_[2] == ("const", 4) and f_[3] == ("const", 6):
+                return (72, 328)
+        if call_is(ts, "len") and strip(ts[2][0]) == ("param", dp):
+            return (72, 328)
+        return None
+    for pc2, exc, node2, _st in ds.raises:
+        if not pc2:
+            continue
+        c, truth = pc2[-1]
+        cs = strip(c)
+        ctx.count("decode_rejections")
+        kind = None
+        alts = [(cs, truth)]
+        # normalise not / and / or one level
+        def flat(cx, tr):
+            cx = strip(cx)
+            if cx[0] == "un" and cx[1] == "not":
+                return flat(cx[2], not tr)
+            if cx[0] == "bool" and ((cx[1] == "or" and tr) or (cx[1] == "and" and not tr)):
+                out = []
+                for x in cx[2]:
+                    out += flat(x, tr)
+                return out
+            return [(cx, tr)]
+        verdicts = []
+        for a, tr in flat(cs, truth):
+            if any(x[0] == "call" and x[1][0] == "func" and x[1][1].startswith(f"{SEC}.") for x in subterms(a)):
+                verdicts.append("signature")      # integrity verdicts are C03's; a conforming packet passes them
+                continue
+            if a[0] == "cmp":
+                l, r = strip(a[2]), strip(a[3])
+                # signature / marker / decrypt failures
+                if any(call_is(x, f"{SEC}.sign") for x in (l, r)):
+                    verdicts.append("signature")
+                    continue
+                if (l[0] == "slice" and strip(l[1]) == ("param", dp) and is_const(r)) or (r[0] == "slice" and strip(r[1]) == ("param", dp) and is_const(l)):
+                    sl, cv = (l, r) if l[0] == "slice" else (r, l)
+                    lo = sl[2][1] if sl[2] is not None else 0
+                    hi = sl[3][1] if sl[3] is not None else None
+                    emitted = bytes(x[1] for x in (hb or [])[lo:hi]) if hb and all(x[0] == "c" for x in hb[lo:hi]) else None
+                    same = emitted is not None and cv[1] == emitted
+                    verdicts.append("constant-ok" if ((a[1] == "!=") == tr and same) or ((a[1] == "==") != tr and same) else "constant-mismatch")
+                    continue
+                il, ir = _iv(l, valid_leaf), _iv(r, valid_leaf)
+                if il is not None and ir is not None:
+                    op = a[1] if tr else {"<": ">=", ">=": "<", ">": "<=", "<=": ">", "==": "!=", "!=": "=="}[a[1]]
+                    # can `l op r` be true for some valid packet?  (len(packet) and the length field are equal for valid packets)
+                    same_q = valid_leaf(l) is not None and valid_leaf(r) is not None
+                    if same_q:
+                        possible = op in ("<=", ">=", "==")
+                    else:
+                        possible = {"<": il[0] < ir[1], "<=": il[0] <= ir[1], ">": il[1] > ir[0], ">=": il[1] >= ir[0],
+                                    "==": not (il[1] < ir[0] or ir[1] < il[0]), "!=": not (il[0] == il[1] == ir[0] == ir[1])}[op]
+                    verdicts.append("length-rejects-valid" if possible else "length-ok")
+                    continue
+            verdicts.append("unknown")
+        if exc != "msmart.lan.ProtocolError" and not prog.exc_is(exc, "msmart.lan.ProtocolError"):
+            continue
+        if "ValueError" in str(_st.env.get("e", "")):
+            verdicts = ["decrypt"]
+        bad_v = [v for v in verdicts if v in ("length-rejects-valid", "constant-mismatch")]
+        und = [v for v in verdicts if v == "unknown"]
+        # handler-raised rejections (decrypt failure) have the handler's pseudo condition: accept when raised inside an except clause
+        if und and isinstance(node2, ast.Raise) and node2.cause is not None:
+            und = []
+        ctx.ob("C02.b", DEC, not bad_v, f"rejection `{show(cs)[:70]}` cannot fire for a packet a conforming peer produces ({', '.join(verdicts)})", func=DEC, file=file, node=node2,
+               fail=f"decode rejects packets a conforming implementation produces: `{show(cs)[:100]}` is satisfiable for valid total lengths 72..328 / emitted header constants")
+        if und:
+            raise AnalysisError(f"{DEC}: rejection guard `{show(cs)[:100]}` is outside the decidable forms (length / header constant / signature)")
     # ---------------------------------------------------------------- C02.d domains
     ctx.ob("C02.d", ENC, Lin(40) + Lin(272) + Lin(16) == Lin(328) and 328 < 2 ** 16 and lok, "largest packet (255-byte frame -> 272-byte ciphertext) fits the 2-byte length field",
            func=ENC, file=file, construct="length width", fail="length field too narrow")
